@@ -262,8 +262,10 @@ def run_one(seed, preset=None, tier="quick", want_case=False):
     if wt.chance(4):
         # several very wide requests in flight together (each fine alone by construction of the oracle)
         from simv.wide import run_wide
-        wv, wide_info = run_wide(wt, "%s_%d_wide" % (ID, seed), [wt.rint(350, 900) for _ in range(wt.rint(2, 3))],
-                                 scheduler=wt.choose(["random", "lifo", "fifo"]))
+        rows = [wt.rint(350, 900) for _ in range(wt.rint(2, 3))]
+        if wt.chance(20):
+            rows = [wt.rint(8200, 9600), wt.rint(8200, 9600)]  # together far beyond 2^14 items in flight
+        wv, wide_info = run_wide(wt, "%s_%d_wide" % (ID, seed), rows, scheduler=wt.choose(["random", "lifo", "fifo"]))
         viol.extend(wv)
     r0 = base_result(tape, out, viol)
     r0["digest"] = run_digest(out.trace, out.events, [x.resp for x in reqs], [x.cancelled for x in reqs], repr(out.exc))
@@ -292,6 +294,7 @@ def run_one(seed, preset=None, tier="quick", want_case=False):
         "shared_exception_two_requests": int(sum(1 for x in reqs if x.plan is not None and "raise_shared" in x.plan.faults_fired) >= 2),
         "cancelled_mid_flight": int(cancel is not None and reqs[cancel].cancelled and bool(reqs[cancel].rt.started)),
         "wide_requests_together": int(wide_info is not None),
+        "two_requests_of_8000_plus_rows_together": int(wide_info is not None and max(wide_info["rows"]) >= 8000),
     }
     if want_case or viol:
         r0["case"] = {"sdl": sdl, "engine_config": cfg, "cache": cache, "scheduler": sch, "cancel": cancel,
